@@ -199,7 +199,7 @@ package generic
 //@   requires c != nil
 //@   ensures[C16,C05] result == c.ancestry && c.parent == old(c.parent) && c.character == old(c.character)
 //@   ensures[C16,C05] old(len(c.ancestry)) > 0 ==> result == old(c.ancestry)
-//@   ensures[C16,C05] old(len(c.ancestry)) == 0 && c.parent != nil && c.parent != c && len(result) > 0 && len(c.parent.ancestry) > 0 ==>
+//@   ensures[C16,C05,C04] old(len(c.ancestry)) == 0 && c.parent != nil && c.parent != c && len(result) > 0 && len(c.parent.ancestry) > 0 ==>
 //@       arr(result) != arr(c.parent.ancestry)
 //@   assigns any(SymbolNode).ancestry
 //@   nopanic
